@@ -797,4 +797,306 @@ example : NoneDone [nd (pieceA ++ pieceB1 ++ pieceB2), nd []]
     ∧ parseF17 (texts ([nd (pieceA ++ pieceB1 ++ pieceB2), nd []] ++ [fin])) = [callA, callB] := by
   decide
 
+/-! ## The handlers end to end: every point at which the runner may fail -/
+
+theorem genCallbackT_none (raw : Bool) (pl : Nat) (cs : List Chunk) (sb : Bytes) :
+    genCallbackT none raw pl cs sb = (genCallback raw pl cs sb).map Item.msg := by
+  induction cs generalizing sb with
+  | nil => rfl
+  | cons c cs ih => simp [genCallbackT, genCallback, ih]
+
+/-- Tokenize is only called on a done chunk of a non-raw request -/
+theorem genCallbackT_quiet (tf : Option Bytes) (raw : Bool) (pl : Nat) (cs : List Chunk) (sb : Bytes)
+    (h : raw = true ∨ NoneDone cs) :
+    genCallbackT tf raw pl cs sb = (genCallback raw pl cs sb).map Item.msg := by
+  induction cs generalizing sb with
+  | nil => rfl
+  | cons c cs ih =>
+    have h' : raw = true ∨ NoneDone cs := h.imp id (fun hn x hx => hn x (by simp [hx]))
+    have hc : (c.done && !raw) = false := by
+      rcases h with h | h
+      · simp [h]
+      · simp [h c (by simp)]
+    cases tf <;> simp [genCallbackT, genCallback, ih _ h', hc]
+
+theorem genCallbackT_append (tf : Option Bytes) (raw : Bool) (pl : Nat) (a b : List Chunk) (sb : Bytes) :
+    genCallbackT tf raw pl (a ++ b) sb = genCallbackT tf raw pl a sb ++ genCallbackT tf raw pl b (sb ++ texts a) := by
+  induction a generalizing sb with
+  | nil => simp [genCallbackT]
+  | cons c cs ih => simp [genCallbackT, ih, List.append_assoc]
+
+theorem sawDone_snoc (init : List Chunk) (l : Chunk) (hl : l.done = true) : sawDone (init ++ [l]) = true := by
+  simp [sawDone, hl]
+
+theorem sawDone_noneDone (cs : List Chunk) (h : NoneDone cs) : sawDone cs = false := by
+  simp only [sawDone, List.any_eq_false]
+  intro x hx; simp [h x hx]
+
+theorem endItemsV_pinned {α : Type} (cs : List Chunk) (e : End) : (endItemsV false cs e : List (Item α)) = endItems e := by
+  cases e <;> rfl
+
+/-- the item GenerateHandler's callback sends for the done chunk -/
+def genDoneItem (tf : Option Bytes) (raw : Bool) (pl : Nat) (sb' : Bytes) (l : Chunk) : Item GenMsg :=
+  match tf with
+  | some m => if l.done && !raw then Item.err m else Item.msg (genMsgOf raw pl sb' l)
+  | none => Item.msg (genMsgOf raw pl sb' l)
+
+theorem genDoneItem_terminal (tf : Option Bytes) (raw : Bool) (pl : Nat) (sb' : Bytes) (l : Chunk) (hl : l.done = true) :
+    terminal (fun m : GenMsg => m.info.done) (genDoneItem tf raw pl sb' l) = true := by
+  unfold genDoneItem
+  cases tf with
+  | none => simp [terminal, genMsgOf, chunkInfo, hl]
+  | some m => cases raw <;> simp [terminal, genMsgOf, chunkInfo, hl]
+
+/-- shape of GenerateHandler's channel for a run that delivers its done chunk -/
+theorem genItemsH_done (v : Variant) (f : Fault) (raw : Bool) (pl : Nat) (init : List Chunk) (l : Chunk)
+    (hnd : NoneDone init) (hl : l.done = true) :
+    genItemsH v f raw pl (init ++ [l]) .ok
+      = (genCallback raw pl init []).map Item.msg ++ [genDoneItem f.ctxTok raw pl ([] ++ texts init ++ l.content) l] := by
+  simp only [genItemsH, genCallbackT_append, genCallbackT_quiet _ _ _ _ _ (Or.inr hnd), endItemsV,
+    sawDone_snoc init l hl, Bool.not_true, Bool.and_false, Bool.false_eq_true, ↓reduceIte, List.append_nil]
+  cases f.ctxTok <;> simp [genCallbackT, genDoneItem]
+
+theorem genItemsH_fail (v : Variant) (f : Fault) (raw : Bool) (pl : Nat) (cs : List Chunk) (m : Bytes)
+    (hnd : NoneDone cs) :
+    genItemsH v f raw pl cs (.err m) = (genCallback raw pl cs []).map Item.msg ++ [Item.err m] := by
+  simp [genItemsH, genCallbackT_quiet _ _ _ _ _ (Or.inr hnd), endItemsV]
+
+/-- **one_final, every failure point (generate)**: whichever runner method fails (scheduler/load,
+    Detokenize of a supplied context, Tokenize for the `context` field, Completion after k chunks),
+    a streamed /api/generate is either ONE 500 error body or an NDJSON stream with exactly one
+    terminal item (done message or error), which is last. -/
+theorem one_final_generate_faults (v : Variant) (f : Fault) (raw hist : Bool) (pl : Nat) (cs : List Chunk) (e : End)
+    (h : RunnerOK cs e) :
+    match generateStreamH v f raw hist pl cs e with
+    | .error _ => True
+    | .ok items => OneFinal (fun m : GenMsg => m.info.done) items := by
+  unfold generateStreamH
+  cases f.genPre hist with
+  | some m => trivial
+  | none =>
+    cases h with
+    | done init l hnd hl =>
+      simp only [genItemsH_done v f raw pl init l hnd hl]
+      exact oneFinal_of_snoc _ _ _ (genCallback_nonfinal raw pl init [] hnd) (genDoneItem_terminal _ _ _ _ _ hl)
+    | fail cs m hnd =>
+      simp only [genItemsH_fail v f raw pl cs m hnd]
+      exact oneFinal_of_snoc _ _ _ (genCallback_nonfinal raw pl cs [] hnd) rfl
+
+/-- the error a (streamed / non-streamed) reply reports -/
+def streamError {α : Type} : Except Bytes (List (Item α)) → Option Bytes
+  | .error m => some m
+  | .ok items => (errsOf items).head?
+
+def onceError {α : Type} : Except Bytes α → Option Bytes
+  | .error m => some m
+  | .ok _ => none
+
+theorem errsOf_snoc_err {α : Type} (ms : List α) (m : Bytes) : errsOf (ms.map Item.msg ++ [Item.err m]) = [m] := by
+  rw [errsOf_append, errsOf_map_msg]; rfl
+
+theorem errsOf_snoc_msg {α : Type} (ms : List α) (x : α) : errsOf (ms.map Item.msg ++ [Item.msg x]) = [] := by
+  rw [errsOf_append, errsOf_map_msg]; rfl
+
+theorem onceLoop_snoc_err {α : Type} (content : α → Bytes) (ms : List α) (m : Bytes) (r : α) :
+    onceLoop content (ms.map Item.msg ++ [Item.err m]) [] r = .error m := onceLoop_err content ms m [] [] r
+
+theorem onceLoop_snoc_msg {α : Type} (content : α → Bytes) (ms : List α) (x : α) (r : α) :
+    onceLoop content (ms.map Item.msg ++ [Item.msg x]) [] r = .ok (((ms ++ [x]).map content).flatten, x) := by
+  have := onceLoop_msgs content (ms ++ [x]) [] r
+  simp only [List.map_append, List.map_cons, List.map_nil, List.nil_append, lastOr_append_singleton] at this
+  simpa using this
+
+/-- **stream = non-stream in outcome, every failure point (generate)**: the non-streamed request
+    fails with message `m` iff the streamed one reports exactly the error `m` (as a 500 body or as
+    its only error line); in particular a Tokenize failure after the done chunk turns BOTH into the
+    error (no done message is streamed: `one_final_generate_faults`). -/
+theorem generate_outcome_equiv (v : Variant) (f : Fault) (raw hist : Bool) (pl : Nat) (cs : List Chunk) (e : End)
+    (h : RunnerOK cs e) :
+    streamError (generateStreamH v f raw hist pl cs e) = onceError (generateOnceH v f raw hist pl cs e)
+    ∧ (match generateStreamH v f raw hist pl cs e with
+       | .error _ => True
+       | .ok items => (errsOf items).length ≤ 1) := by
+  unfold generateStreamH generateOnceH
+  cases f.genPre hist with
+  | some m => exact ⟨rfl, trivial⟩
+  | none =>
+    cases h with
+    | done init l hnd hl =>
+      simp only [genItemsH_done v f raw pl init l hnd hl]
+      unfold genDoneItem
+      cases hf : f.ctxTok with
+      | none =>
+        simp only [onceLoop_snoc_msg, streamError, onceError, errsOf_snoc_msg]
+        exact ⟨rfl, by simp⟩
+      | some m =>
+        cases raw
+        · simp only [hl, Bool.not_false, Bool.and_self, ↓reduceIte, onceLoop_snoc_err, streamError, onceError,
+            errsOf_snoc_err]
+          exact ⟨rfl, by simp⟩
+        · simp only [hl, Bool.not_true, Bool.and_false, Bool.false_eq_true, ↓reduceIte, onceLoop_snoc_msg,
+            streamError, onceError, errsOf_snoc_msg]
+          exact ⟨rfl, by simp⟩
+    | fail cs m hnd =>
+      simp only [genItemsH_fail v f raw pl cs m hnd, onceLoop_snoc_err, streamError, onceError, errsOf_snoc_err]
+      exact ⟨rfl, by simp⟩
+
+
+/-! ### chat -/
+
+theorem chatCallbackFixed_nonfinal (parse : Bytes → List Call) (cs : List Chunk) (sb : Bytes) (idx : Nat)
+    (hnd : NoneDone cs) : ∀ m ∈ chatCallbackFixed parse cs sb idx, m.info.done = false := by
+  induction cs generalizing sb idx with
+  | nil => intro m hm; simp [chatCallbackFixed] at hm
+  | cons c cs ih =>
+    have hd : c.done = false := hnd c (by simp)
+    have hnd' : NoneDone cs := fun x hx => hnd x (by simp [hx])
+    intro m hm
+    simp only [chatCallbackFixed] at hm
+    split at hm
+    · rcases List.mem_cons.mp hm with rfl | h
+      · simp [chunkInfo, hd]
+      · exact ih _ _ hnd' m h
+    · rw [if_neg (by simp [hd])] at hm
+      exact ih _ _ hnd' m hm
+
+theorem chatCallbackFixed_done_chunk (parse : Bytes → List Call) (l : Chunk) (sb : Bytes) (idx : Nat)
+    (hl : l.done = true) : ∃ m, chatCallbackFixed parse [l] sb idx = [m] ∧ m.info.done = true := by
+  simp only [chatCallbackFixed]
+  split
+  · exact ⟨_, rfl, by simp [chunkInfo, hl]⟩
+  · first
+      | exact ⟨_, rfl, by simp [chunkInfo, hl]⟩
+      | (rw [if_pos hl]; exact ⟨_, rfl, by simp [chunkInfo, hl]⟩)
+
+theorem chatCallbackFixed_append (parse : Bytes → List Call) (init rest : List Chunk) (sb : Bytes) (idx : Nat) :
+    ∃ sb' idx', chatCallbackFixed parse (init ++ rest) sb idx
+      = chatCallbackFixed parse init sb idx ++ chatCallbackFixed parse rest sb' idx' := by
+  induction init generalizing sb idx with
+  | nil => exact ⟨sb, idx, by simp [chatCallbackFixed]⟩
+  | cons c cs ih =>
+    simp only [List.cons_append, chatCallbackFixed]
+    split
+    · obtain ⟨sb', idx', h⟩ := ih (sb ++ c.content) (parse (sb ++ c.content)).length
+      exact ⟨sb', idx', by simp [h]⟩
+    · split
+      · obtain ⟨sb', idx', h⟩ := ih (sb ++ c.content) idx
+        exact ⟨sb', idx', by simp [h]⟩
+      · exact ih (sb ++ c.content) idx
+
+/-- the messages of ChatHandler's callback, pinned or repaired -/
+def chatMsgsV (v : Variant) (parse : Bytes → List Call) (buffered : Bool) (cs : List Chunk) : List ChatMsg :=
+  if v.toolsStream && buffered then chatCallbackFixed parse cs [] 0 else chatCallback parse buffered cs [] 0
+
+theorem chatItemsH_eq (v : Variant) (parse : Bytes → List Call) (buffered : Bool) (cs : List Chunk) (e : End) :
+    chatItemsH v parse buffered cs e = (chatMsgsV v parse buffered cs).map Item.msg ++ endItemsV v.incomplete cs e := rfl
+
+theorem chatMsgsV_nonfinal (v : Variant) (parse : Bytes → List Call) (buffered : Bool) (cs : List Chunk)
+    (hnd : NoneDone cs) : ∀ m ∈ chatMsgsV v parse buffered cs, m.info.done = false := by
+  unfold chatMsgsV
+  split
+  · exact chatCallbackFixed_nonfinal parse cs [] 0 hnd
+  · exact chatCallback_nonfinal parse buffered cs [] 0 hnd
+
+theorem chatMsgsV_done (v : Variant) (parse : Bytes → List Call) (buffered : Bool) (init : List Chunk) (l : Chunk)
+    (hnd : NoneDone init) (hl : l.done = true) :
+    ∃ (pre : List ChatMsg) (m : ChatMsg), chatMsgsV v parse buffered (init ++ [l]) = pre ++ [m]
+      ∧ (∀ x ∈ pre, x.info.done = false) ∧ m.info.done = true := by
+  unfold chatMsgsV
+  split
+  · obtain ⟨sb', idx', happ⟩ := chatCallbackFixed_append parse init [l] [] 0
+    obtain ⟨m, hm, hdone⟩ := chatCallbackFixed_done_chunk parse l sb' idx' hl
+    exact ⟨_, m, by rw [happ, hm], chatCallbackFixed_nonfinal parse init [] 0 hnd, hdone⟩
+  · obtain ⟨sb', idx', happ⟩ := chatCallback_append parse buffered init [l] [] 0
+    obtain ⟨m, hm, hdone⟩ := chatCallback_done_chunk parse buffered l sb' idx' hl
+    exact ⟨_, m, by rw [happ, hm], chatCallback_nonfinal parse buffered init [] 0 hnd, hdone⟩
+
+/-- **one_final, every failure point (chat)**, pinned or repaired tool path, with or without tools. -/
+theorem one_final_chat_faults (v : Variant) (f : Fault) (parse : Bytes → List Call) (tools hist : Bool)
+    (cs : List Chunk) (e : End) (h : RunnerOK cs e) :
+    match chatStreamH v f parse tools hist cs e with
+    | .error _ => True
+    | .ok items => OneFinal (fun m : ChatMsg => m.info.done) items := by
+  unfold chatStreamH
+  cases f.chatPre hist with
+  | some m => trivial
+  | none =>
+    simp only [chatItemsH_eq]
+    cases h with
+    | done init l hnd hl =>
+      obtain ⟨pre, m, hs, hpre, hm⟩ := chatMsgsV_done v parse tools init l hnd hl
+      simp only [hs, endItemsV, sawDone_snoc init l hl, Bool.not_true, Bool.and_false, Bool.false_eq_true,
+        ↓reduceIte, List.append_nil, List.map_append, List.map_cons, List.map_nil]
+      exact oneFinal_of_snoc _ _ _ hpre (by simp [terminal, hm])
+    | fail cs m hnd =>
+      simp only [endItemsV]
+      exact oneFinal_of_snoc _ _ _ (chatMsgsV_nonfinal v parse tools cs hnd) rfl
+
+theorem onceError_ite {α : Type} (c : Prop) [Decidable c] (a b : α) :
+    onceError (if c then (Except.ok a : Except Bytes α) else .ok b) = none := by
+  split <;> rfl
+
+/-- **stream = non-stream in outcome, every failure point (chat)**. -/
+theorem chat_outcome_equiv (v : Variant) (f : Fault) (parse : Bytes → List Call) (tools hist : Bool)
+    (cs : List Chunk) (e : End) (h : RunnerOK cs e) :
+    streamError (chatStreamH v f parse tools hist cs e) = onceError (chatOnceH v f parse tools hist cs e) := by
+  unfold chatStreamH chatOnceH
+  cases f.chatPre hist with
+  | some m => rfl
+  | none =>
+    simp only [chatItemsH_eq]
+    cases h with
+    | done init l hnd hl =>
+      simp only [endItemsV, sawDone_snoc init l hl, Bool.not_true, Bool.and_false, Bool.false_eq_true,
+        ↓reduceIte, List.append_nil, onceLoop_msgs, streamError, errsOf_map_msg, List.head?_nil]
+      exact (onceError_ite _ _ _).symm
+    | fail cs m hnd =>
+      simp only [endItemsV, onceLoop_snoc_err, streamError, errsOf_snoc_err]
+      rfl
+
+/-! ### F17d repaired (proposed_fixes/C17-F17d.patch): a run without a done chunk is reported -/
+
+/-- with the repaired handlers, a run in which `Completion` returns nil without ever delivering a
+    done chunk ends with exactly one error (`sIncomplete`) on the stream, and the non-streamed
+    request fails with the same message: `one_final` then holds for EVERY run whose chunks before the
+    end are not done (`RunnerOK` or silent end). -/
+theorem one_final_generate_fixedD (v : Variant) (hv : v.incomplete = true) (f : Fault) (raw hist : Bool) (pl : Nat)
+    (cs : List Chunk) (hnd : NoneDone cs) :
+    (match generateStreamH v f raw hist pl cs .ok with
+      | .error _ => True
+      | .ok items => OneFinal (fun m : GenMsg => m.info.done) items ∧ items.getLast? = some (Item.err sIncomplete))
+    ∧ streamError (generateStreamH v f raw hist pl cs .ok) = onceError (generateOnceH v f raw hist pl cs .ok) := by
+  unfold generateStreamH generateOnceH
+  cases f.genPre hist with
+  | some m => exact ⟨trivial, rfl⟩
+  | none =>
+    have hi : genItemsH v f raw pl cs .ok = (genCallback raw pl cs []).map Item.msg ++ [Item.err sIncomplete] := by
+      simp [genItemsH, genCallbackT_quiet _ _ _ _ _ (Or.inr hnd), endItemsV, hv, sawDone_noneDone cs hnd]
+    simp only [hi, onceLoop_snoc_err, streamError, errsOf_snoc_err]
+    exact ⟨⟨oneFinal_of_snoc _ _ _ (genCallback_nonfinal raw pl cs [] hnd) rfl, by simp⟩, rfl⟩
+
+theorem one_final_chat_fixedD (v : Variant) (hv : v.incomplete = true) (f : Fault) (parse : Bytes → List Call)
+    (tools hist : Bool) (cs : List Chunk) (hnd : NoneDone cs) :
+    (match chatStreamH v f parse tools hist cs .ok with
+      | .error _ => True
+      | .ok items => OneFinal (fun m : ChatMsg => m.info.done) items ∧ items.getLast? = some (Item.err sIncomplete))
+    ∧ streamError (chatStreamH v f parse tools hist cs .ok) = onceError (chatOnceH v f parse tools hist cs .ok) := by
+  unfold chatStreamH chatOnceH
+  cases f.chatPre hist with
+  | some m => exact ⟨trivial, rfl⟩
+  | none =>
+    simp only [chatItemsH_eq, endItemsV, hv, sawDone_noneDone cs hnd, Bool.not_false, Bool.and_self, ↓reduceIte,
+      onceLoop_snoc_err, streamError, errsOf_snoc_err]
+    exact ⟨⟨oneFinal_of_snoc _ _ _ (chatMsgsV_nonfinal v parse tools cs hnd) rfl, by simp⟩, rfl⟩
+
+/-- **witness of the seeded change C17-D's class**: a complete run whose `context` tokenization fails:
+    stream = chunk, then the error (no done message); non-stream = the error. -/
+theorem tokenize_failure_after_done :
+    generateStreamH ⟨false, false, true, false⟩ (.tok sBoom) false false 3 [nd sHi, fin] .ok
+      = .ok [.msg ⟨sHi, ⟨true, false, [], 0, 0⟩, none⟩, .err sBoom]
+    ∧ generateOnceH ⟨false, false, true, false⟩ (.tok sBoom) false false 3 [nd sHi, fin] .ok = .error sBoom
+    ∧ generateStreamH ⟨false, false, true, false⟩ (.tok sBoom) true false 3 [nd sHi, fin] .ok
+      = .ok [.msg ⟨sHi, ⟨true, false, [], 0, 0⟩, none⟩, .msg ⟨[], ⟨true, true, sStop, 5, 7⟩, none⟩] :=
+  ⟨rfl, rfl, rfl⟩
+
 end OllamaVerif.C17
